@@ -184,6 +184,17 @@ def hidden_state_sites(model: SrcModel, fn: FuncDef) -> List[Tuple[str, ast.AST,
                     is_model_obj = isinstance(v, ast.Call) and isinstance(model.resolve_expr(mod, v.func), ClassDef)
                     if is_model_obj or isinstance(v, (ast.Dict, ast.List, ast.Set)):
                         out.append(("shared-escape", n, f"hands the module-level object '{c.id}' on ({norm(n, 70)}): one instance is shared by all results"))
+        if isinstance(n, ast.Return) and isinstance(n.value, (ast.Subscript, ast.Attribute)) or \
+                (isinstance(n, ast.Return) and isinstance(n.value, ast.Call) and isinstance(n.value.func, ast.Attribute) and n.value.func.attr == "get"):
+            target = n.value.func.value if isinstance(n.value, ast.Call) else n.value
+            root = _root_name(target)
+            if is_module_var(root):
+                v = mutables.get(root)
+                holds_objects = isinstance(v, (ast.Dict, ast.List, ast.Tuple)) and any(
+                    isinstance(x, ast.Call) and not isinstance(model.resolve_expr(mod, x.func), FuncDef) and (dotted(x.func) or "").split(".")[-1][:1].isupper()
+                    for x in ast.walk(v))
+                if holds_objects:
+                    out.append(("shared-return", n, f"returns an object stored in the module-level container '{root}' (one instance shared by all callers)"))
         if isinstance(n, ast.Return) and isinstance(n.value, ast.IfExp):
             for side in (n.value.body, n.value.orelse):
                 if isinstance(side, ast.Name) and is_module_var(side.id) and isinstance(mutables.get(side.id), (ast.Call, ast.Dict, ast.List)):
@@ -237,3 +248,40 @@ def check_path(ctx, rule: str, roots: Iterable[str], what: str, extra_classes: I
     cm = SrcModel(model.repo, overlay=ov)
     found = {k for k, _, _ in hidden_state_sites(cm, cm.func("ahbicht._vstat_control.Holder.get"))}
     ctx.require({"module-store", "self-store"} <= found, f"{rule}: positive control not recognised ({found})")
+
+
+def check_models_and_transformers(ctx, rule: str, what: str) -> None:
+    """Two structural necessary conditions for history-independent evaluation:
+    * no attrs/dataclass field has a *mutable object* as default (one instance would be shared by all instances and an
+      in-place edit of one result would show up in every later result);
+    * every Lark transformer of the repository derives from lark.Transformer (builds fresh nodes, lemma L3) and not from
+      an in-place / visitor variant that overwrites the children of the tree it is given (re-evaluating a parsed tree
+      would then see the previous evaluation's nodes)."""
+    model: SrcModel = ctx.model
+    n = 0
+    for cls in model.classes.values():
+        if cls.module.name.endswith("_vstat_stub"):
+            continue
+        if any("attrs.define" in norm(d) or "attr.s" in norm(d) or "dataclass" in norm(d) for d in cls.node.decorator_list):
+            for st in cls.node.body:
+                if isinstance(st, ast.AnnAssign) and st.value is not None and isinstance(st.target, ast.Name):
+                    default = st.value
+                    if isinstance(default, ast.Call) and (dotted(default.func) or "").split(".")[-1] in ("field", "ib"):
+                        default = next((kw.value for kw in default.keywords if kw.arg == "default"), None)
+                    n += 1
+                    bad = isinstance(default, (ast.List, ast.Dict, ast.Set)) or (
+                        isinstance(default, ast.Call) and isinstance(model.resolve_expr(cls.module, default.func), ClassDef)
+                        and not model.is_enum(model.resolve_expr(cls.module, default.func)))
+                    if bad:
+                        ctx.ob(rule, f"{cls.qualname}.{st.target.id}::mutable-default", False,
+                               f"{what}: the default of {cls.name}.{st.target.id} is the mutable object {norm(default, 60)} - one instance is shared by every {cls.name}",
+                               file=cls.file, line=st.lineno)
+        bases = model.mro(cls.qualname)
+        larkish = [b for b in bases if b.startswith("lark.") and any(k in b for k in ("Transformer", "Visitor", "Interpreter"))]
+        if larkish:
+            n += 1
+            ok = all(b in ("lark.Transformer", "lark.visitors.Transformer") for b in larkish)
+            ctx.ob(rule, f"{cls.qualname}::transformer-base", ok,
+                   f"{what}: {cls.name} derives from {larkish}: an in-place/visitor variant overwrites the children of the tree it is given instead of building fresh nodes (L3)",
+                   file=cls.file, line=cls.node.lineno)
+    ctx.count(n)
